@@ -161,7 +161,7 @@ type Versions []*Version
 func (versions *Versions) UnmarshalYAML(value *yaml.Node) error {
 	unpacked := []*Version(*versions)
 
-	if value.Tag != "!!map" {
+	if value.Tag != "!!map" || value.Kind != yaml.MappingNode {
 		return fmt.Errorf("expected versions map")
 	}
 
